@@ -42,12 +42,16 @@ use core::{
     fmt::{self, Display, Formatter},
     num::{ParseFloatError, ParseIntError},
 };
+#[cfg(all(feature = "std", not(retrofire_verif)))]
+use std::fs::File;
 #[cfg(feature = "std")]
 use std::{
-    fs::File,
     io::{BufReader, Read},
     path::Path,
 };
+// Verification seam: see `retrofire_core::util::verif_fs`
+#[cfg(all(feature = "std", retrofire_verif))]
+use re::util::verif_fs::File;
 
 use re::geom::{mesh::Builder, vertex, Mesh, Normal3, Tri};
 use re::math::{vec3, Point3, Vec3};
